@@ -30,8 +30,8 @@ def run_world(spec, plan=None, opts=None, extra_argv=(), mode='in',
             with open(plan_path, 'w') as f:
                 json.dump(plan, f)
         trace = os.path.join(root, 'trace-%d.jsonl' % len(os.listdir(root)))
-        argv = [path_opt, root] + vworld.opts_to_argv(opts or {}) + \
-            list(extra_argv)
+        defaults, oargv = vworld.opts_split(opts or {})
+        argv = [path_opt, root] + oargv + list(extra_argv)
         mdir = None
         if markers:
             mdir = os.path.join(root, 'markers-%d' % len(os.listdir(root)))
@@ -45,13 +45,16 @@ def run_world(spec, plan=None, opts=None, extra_argv=(), mode='in',
                 argv, os.path.join(root, 'world.json'), trace, plan=plan_path,
                 purge=(spec['prefix'],), env_extra=ee, pre=pre, post=post,
                 warnings=warnings, stdin=stdin, script_parts=script_parts,
-                run_cwd=run_cwd)
+                run_cwd=run_cwd, defaults=defaults)
             w.out = r.out
             w.raised = r.raised
             w.raised_tb = r.raised_tb
             w.verdict = None if r.raised is not None else bool(r.returned)
             w.rc = None
         else:
+            if defaults:
+                env_extra = dict(env_extra or {},
+                                 ZTR_DEFAULTS=json.dumps(defaults))
             r = runcase.run_cli(
                 argv, os.path.join(root, 'world.json'), trace, plan=plan_path,
                 env_extra=env_extra, timeout=timeout, python=python,
